@@ -44,6 +44,7 @@ TNext == l <= Len(Trace) /\ l' = l + 1 /\ rec' = Trace[l] /\ UNCHANGED d
 TraceSpec == TInit /\ [][TNext]_<<d, l, rec>>
 C17 == rec.ev = "obs" =>
    LET e == Expected(rec.desc) IN
+   /\ rec.panic = ""
    /\ rec.len = e.len
    /\ rec.outs = e.outs
    /\ rec.errnil = e.errnil
